@@ -178,6 +178,24 @@ Print Assumptions C19_late_push_example.
 (* ---------------------------------------------------------------------- *)
 (* names                                                                    *)
 
+(* in every reachable registry: a name is held by at most one spawn attempt (so
+   maps to at most one live actor); a lookup finds only the holder; a holder's
+   name is hidden (reserved) or shows the holder, and its activation — which the
+   actor task performs after pre_start succeeded — cannot fail; dropping the
+   Registration (exit, failed start, cancellation) hides the name and frees it *)
+Theorem C19_names : forall es r,
+  rsteps rinit es = Some r ->
+  (forall a b n, kfind a (tokens r) = Some n -> kfind b (tokens r) = Some n -> a = b) /\
+  (forall n a, lookup r n = Some a -> kfind a (tokens r) = Some n) /\
+  (forall a n, kfind a (tokens r) = Some n ->
+     (lookup r n = None \/ lookup r n = Some a) /\
+     exists r', rstep r (RActivate a) = Some r' /\ lookup r' n = Some a) /\
+  (forall a n r', kfind a (tokens r) = Some n -> rstep r (RRelease a) = Some r' ->
+     lookup r' n = None /\
+     forall b, kfind b (tokens r') = None -> exists r'', rstep r' (RReserve b n true) = Some r'').
+Proof. exact names_summary. Qed.
+Print Assumptions C19_names.
+
 (* a name is held by at most one spawn attempt at a time *)
 Theorem C19_names_unique : forall es r a b n,
   rsteps rinit es = Some r ->
